@@ -255,10 +255,10 @@ var c12Constructs = []c12construct{
 		}
 		// ... and what the explicit filter itself returns for the template's own type (seen through raw) is the value
 		// escaped once, whichever Go type carries the strategy's name: a string, a defined string type, a Stringer,
-		// a string marked safe
-		return one(m, "[1:{{ x|escape(own) }}][2:{{ x }}][3:{{ x|escape(strat) }}][4:{{ x|escape(strat)|upper }}][5:{{ x|escape(own)|raw }}][6:{{ x|escape(ownT)|raw }}][7:{{ x|escape(ownS)|raw }}][8:{{ x|escape(own|raw)|raw }}]",
+		// a string marked safe - and whatever further arguments (a charset, as in other Twig dialects) follow it
+		return one(m, "[1:{{ x|escape(own) }}][2:{{ x }}][3:{{ x|escape(strat) }}][4:{{ x|escape(strat)|upper }}][5:{{ x|escape(own)|raw }}][6:{{ x|escape(ownT)|raw }}][7:{{ x|escape(ownS)|raw }}][8:{{ x|escape(own|raw)|raw }}][9:{{ x|escape(own, 'UTF-8') }}][10:{{ x|escape(own, 'UTF-8', 3)|raw }}]",
 			c12site{id: "1", direct: true}, c12site{id: "2", direct: true}, c12site{id: "3", direct: false}, c12site{id: "4", direct: false},
-			c12site{id: "5", direct: true}, c12site{id: "6", direct: true}, c12site{id: "7", direct: true}, c12site{id: "8", direct: true})
+			c12site{id: "5", direct: true}, c12site{id: "6", direct: true}, c12site{id: "7", direct: true}, c12site{id: "8", direct: true}, c12site{id: "9", direct: true}, c12site{id: "10", direct: true})
 	}},
 }
 
